@@ -575,6 +575,33 @@ def rule_pruning_in_place(rep: Report, repo: Repo, rule: str) -> None:
     rep.floor(rule, 3, "pruning facts")
 
 
+def resolve_locals(e: ast.expr, scope: ast.AST, skip: Set[str] = frozenset(), depth: int = 0) -> ast.expr:
+    """Copy propagation for reading purposes: names assigned exactly once inside `scope` (and not loop targets) are replaced
+    by the assigned expression."""
+    if depth > 4:
+        return e
+    import copy as _copy
+    targets = {}
+    loop_targets = set()
+    for n in ast.walk(scope):
+        if isinstance(n, ast.Assign) and len(n.targets) == 1 and isinstance(n.targets[0], ast.Name):
+            targets.setdefault(n.targets[0].id, []).append(n.value)
+        elif isinstance(n, (ast.For, ast.comprehension)):
+            for x in ast.walk(n.target):
+                if isinstance(x, ast.Name):
+                    loop_targets.add(x.id)
+        elif isinstance(n, (ast.AugAssign,)) and isinstance(n.target, ast.Name):
+            targets.setdefault(n.target.id, []).extend([None, None])
+
+    class S(ast.NodeTransformer):
+        def visit_Name(self, node):
+            if isinstance(node.ctx, ast.Load) and node.id in targets and len(targets[node.id]) == 1 and node.id not in loop_targets \
+                    and node.id not in skip and targets[node.id][0] is not None:
+                return resolve_locals(_copy.deepcopy(targets[node.id][0]), scope, skip | {node.id}, depth + 1)
+            return node
+    return S().visit(_copy.deepcopy(e))
+
+
 def match_sites(dm: DocumentModel):
     return [c for c in calls_in(dm.fn) if isinstance(c.func, ast.Attribute) and c.func.attr == "match_file"
             and norm(c.func.value) == dm.spec_var]
@@ -622,7 +649,7 @@ def rule_match_sites(rep: Report, repo: Repo, rule: str) -> None:
     msg = "subdirectories are not matched against the exclusion spec"
     if d is not None:
         c, loop = d
-        arg = norm(c.args[0])
+        arg = norm(resolve_locals(c.args[0], loop))
         var = norm(loop.target)
         trailing = ("join(" + var + ", '')" in arg) or (var + " + os.sep" in arg) or (var + " + '/'" in arg) or \
                    ("join(" + dm.root_var + ", " + var + ", '')" in arg)
@@ -642,7 +669,7 @@ def rule_match_sites(rep: Report, repo: Repo, rule: str) -> None:
     msg = "files are not matched against the exclusion spec"
     if f is not None:
         c, loop = f
-        arg = norm(c.args[0])
+        arg = norm(resolve_locals(c.args[0], loop))
         var = norm(loop.target)
         removes = _guarded_removals(loop, c, dm.files_var, var, dm)
         ok = dm.root_var in arg and var in arg and removes
